@@ -8,6 +8,8 @@ CONSTANTS
   FromInput <- FromBoth
   ExplicitTargets = FALSE
   Refusals = FALSE
+  ZeroHeightRefused = FALSE
+  AlignTarget = FALSE
   MaxLevel = 4
 INIT Init
 NEXT Next
